@@ -30,7 +30,8 @@ RULE = ("mexp: sources built from a grammar of definitions (.define/#define with
         "(argument length 1018..1022, expansion length 4093..4097, nesting 126..130, text length 1018..1023, token "
         "length 507..512, name length 125..128, 46..60 and 254..256 parameters, parenthesis depth 254..257, end of "
         "file at every point of a call).  prog: valid programs of 40+ CPUs whose statements are wrapped at random "
-        "into defines, equ, macros (0..9 parameters, tricky parameter names b/h/x/_p, invoked twice, nested), include "
+        "into defines, equ (values with backslash escapes, `NAME equ VALUE ; comment` with escaped quotes / the other quote "
+        "character / unbalanced ticks in VALUE and further operands behind the name where it is used), macros (0..9 parameters, tricky parameter names b/h/x/_p, invoked twice, nested), include "
         "files, with labels before and after, against their hand expansion; .repeat against n copies of the body's "
         "bytes.  A case is non-trivial when it defines and uses at least one macro/define; distinct = distinct sources.")
 MODELLED = ("tokens_get_char, tokens_unget_char, tokens_get (complete, all lexer flags), macros_get_char, "
@@ -147,6 +148,17 @@ FOCUS = [
     ("equ-blank", ".unsp\nS equ lsr\n.def T = lsr\n or r1,r2 S 1\n or r1,r2 T 2\n", ".unsp\n or r1,r2 lsr 1\n or r1,r2 lsr 2\n",
      "an equ value followed by a blank and another token"),
     ("empty-macro", ".msp430\n.macro e\n.endm\n .db 1\n e\n .db 2\n", ".msp430\n .db 1\n .db 2\n", "a macro with an empty body"),
+    # NAME equ VALUE ; comment -- the comment is not part of the value, whatever quotes the value holds
+    ("equ-escaped-tick", ".msp430\nQUOTE equ '\\''   ; the quote character\n.org 0x100\nstart:\n  .db QUOTE, 5, 6\nafter:\n  .dw after\n",
+     ".msp430\n.org 0x100\nstart:\n  .db '\\'', 5, 6\nafter:\n  .dw after\n", "equ value '\\'' followed by a ; comment, operands behind the name"),
+    ("equ-escaped-quote", ".msp430\nINCH equ \"5\\\"\"   // five inch\n.org 0x200\n  .db INCH, 0, 1\nend_of_text:\n  .dw end_of_text\n",
+     ".msp430\n.org 0x200\n  .db \"5\\\"\", 0, 1\nend_of_text:\n  .dw end_of_text\n", "equ value with \\\" in a string followed by a // comment"),
+    ("equ-other-quote", ".msp430\nDQ equ '\"' ; double quote\nSQ equ \"it's\" // apostrophe\n .db DQ, 1, SQ, 2\nz:\n .dw z\n",
+     ".msp430\n .db '\"', 1, \"it's\", 2\nz:\n .dw z\n", "equ values holding the other quote character, comments behind them"),
+    ("equ-z80-shadow", ".z80\nSHADOW equ af' ; the shadow register\n ex af, SHADOW\n .db 1, 2\nz:\n .dw z\n",
+     ".z80\n ex af, af'\n .db 1, 2\nz:\n .dw z\n", "equ value with an unbalanced tick (Z80 af') and a comment"),
+    ("equ-plain-comment", ".msp430\nA equ 'a'   ; letter\nN equ 7 // seven\n.org 0x300\n  .db A, 1, N, 3\n", ".msp430\n.org 0x300\n  .db 'a', 1, 7, 3\n",
+     "equ values without escapes, comments behind them"),
 ]
 
 
